@@ -114,7 +114,8 @@ let pipe_crypto : crypto = {
   c_cbc_enc = (fun a k iv pt -> q_result ["cbc_enc"; alg_name a; hb k; hb iv; hb pt]);
   c_rc4 = (fun k off d -> q_result ["rc4"; hb k; hex_of_z off; hb d]);
   c_ecb_enc = (fun k b -> q_result ["ecb_enc"; hb k; hb b]);
-  c_chacha_mask = (fun k smp -> q_result ["chacha_mask"; hb k; hb smp]) }
+  c_chacha_mask = (fun k smp -> q_result ["chacha_mask"; hb k; hb smp]);
+  c_inflate = (fun hist x -> q_result ["inflate"; (if hist = [] then "-" else String.concat "," (List.map hb hist)); hb x]) }
 
 let label_of (s : ostring) : label = match s with
   | "CLIENT_RANDOM" -> LClientRandom | "RSA" -> LRsa | "CLIENT_EARLY_TRAFFIC_SECRET" -> LClientEarly
@@ -134,6 +135,28 @@ let ob = function Some b -> hex_of_bytes_strict b | None -> "None"
 let show_keys12 (k : keys12) = String.concat " " (List.map hex_of_bytes_strict [k.client_mac; k.server_mac; k.client_key; k.server_key; k.client_iv; k.server_iv])
 let show_keys13 (k : keys13) = String.concat " " (List.map ob [k.client_hs_key; k.server_hs_key; k.client_app_key; k.server_app_key; k.client_hs_iv; k.server_hs_iv; k.client_app_iv; k.server_app_iv])
 let show_tk = function Some t -> String.concat "/" (List.map hex_of_bytes_strict [t.t_key; t.t_iv; t.t_hp]) | None -> "None"
+
+(* ---------- whole-run inputs ---------- *)
+let split c s = if s = "" then [] else String.split_on_char c s
+let zlist_of (s : ostring) : z list = if s = "-" then [] else List.map z_of_hex (split ',' s)
+let portmap_of (s : ostring) = if s = "-" then [] else List.map (fun e -> match split '=' e with [a; b] -> (z_of_hex a, z_of_hex b) | _ -> failwith "portmap") (split ',' s)
+(* options: ports;checksum;portmap;keep;meta;greasy *)
+let options_of (s : ostring) : options = match split ';' s with
+  | [ports; ck; pm; keep; meta; greasy] ->
+      { opt_server_ports = zlist_of ports; opt_checksum = (ck = "1"); opt_portmap = portmap_of pm; opt_keep_ports = (keep = "1");
+        opt_metadata = (meta = "1"); opt_greasy = (greasy = "1") }
+  | _ -> failwith "options"
+let kind_of = function "T" -> L4Tcp | "U" -> L4Udp | _ -> L4Other
+(* items separated by '|': P~ts~kind~v6~src~dst~smac~dmac~sport~dport~seq~data~proto~seg~sum  or  D~secrets *)
+let item_of (s : ostring) : item = match split '~' s with
+  | ["P"; ts; k; v6; src; dst; smac; dmac; sp; dp; seq; data; proto; sg; sum] ->
+      IPacket { p_ts = z_of_hex ts; p_kind = kind_of k; p_v6 = (v6 = "1"); p_src = bytes_of_hex src; p_dst = bytes_of_hex dst;
+                p_smac = bytes_of_hex smac; p_dmac = bytes_of_hex dmac; p_sport = z_of_hex sp; p_dport = z_of_hex dp; p_seq = z_of_hex seq;
+                p_data = bytes_of_hex data; p_proto = z_of_hex proto; p_seg = bytes_of_hex sg; p_sum = z_of_hex sum }
+  | ["D"; secs] -> IDsb (secrets_of secs)
+  | _ -> failwith "item"
+let items_of (s : ostring) : item list = if s = "-" then [] else List.map item_of (split '|' s)
+let show_pkts (l : (z * z list) list) : ostring = String.concat ";" (List.map (fun (ts, f) -> hex_of_z ts ^ ":" ^ hex_of_bytes_strict f) l)
 
 (* ---------- dispatch ---------- *)
 let handle (cmd : ostring) (args : ostring list) : ostring =
@@ -173,6 +196,10 @@ let handle (cmd : ostring) (args : ostring list) : ostring =
   | "prf10", [sec; cr; sr; lbl; n; nk] -> show_result hex_of_bytes_strict (x_prf_tls_10_11 pipe_crypto (bytes_of_hex sec) (bytes_of_hex cr) (bytes_of_hex sr) (bytes_of_hex lbl) (z_of_hex n) (nk = "1"))
   | "prf12", [sec; cr; sr; lbl; n; h] -> show_result hex_of_bytes_strict (x_prf_tls_12 pipe_crypto (bytes_of_hex sec) (bytes_of_hex cr) (bytes_of_hex sr) (bytes_of_hex lbl) (z_of_hex n) (hash_of h))
   | "makeinfo", [l; n] -> show_result hex_of_bytes_strict (x_make_info (bytes_of_hex l) (z_of_hex n))
+  | "run_tls", [opts; keylog; items] ->
+      show_result show_pkts (x_run_tls pipe_crypto (options_of opts) (secrets_of keylog) (items_of items))
+  | "run_tls_file", [opts; keylog; items] ->
+      show_result (fun l -> hex_of_bytes_strict (x_write_file l)) (x_run_tls pipe_crypto (options_of opts) (secrets_of keylog) (items_of items))
   | "ping", _ -> "pong"
   | _ -> "ERR unknown command " ^ cmd
 
